@@ -82,7 +82,7 @@ def run_file(item):
         lo, hi = layout[-1]['data_start'], layout[-1]['end']
         step = 1 if tier == 'thorough' else max(1, (hi - lo) // 6)
         variants += [(c, data[:c]) for c in range(lo + 1, hi, step)]
-    tmp = tempfile.mkdtemp(prefix='verif_c09_', dir='/dev/shm' if os.path.isdir('/dev/shm') else None)
+    tmp = H.scratch('verif_c09_')
     path = os.path.join(tmp, 'f.tdms')
     try:
         for cut, d in variants:
@@ -171,7 +171,7 @@ def writer_files(item):
     res = {'counters': {'files': 0, 'reads': 0, 'nontrivial': 0}, 'outcomes': {}, 'violations': [], 'samples': []}
     shapes = W.call_shapes()
     assign = W.assignments()[ai]
-    tmp = tempfile.mkdtemp(prefix='verif_c09w_', dir='/dev/shm' if os.path.isdir('/dev/shm') else None)
+    tmp = H.scratch('verif_c09w_')
     path = os.path.join(tmp, 'w.tdms')
     try:
         for seq, dest in [(q, d) for q in ([17], [17, 7], [10, 4, 12], [2, 8, 11, 4]) for d in ('stream', 'path')]:
